@@ -13,10 +13,12 @@ Definition hkind_of (n : N) : hkind :=
 Definition run_c14 (p : profile) (h : hkind) (a : N) (bs : list byte) : list string :=
   let m := {| m_base := a; m_bytes := bs |} in
   let r := ref_from_slice p h m 0 (len bs) in
-  [ line "ref_from_slice"
-      (sRes (fun d => "off=" ++ sN (d_off d) ++ " plen=" ++ sN (d_plen d) ++ " sov=" ++ sN (dref_size_of_val h d)
+  (* the same in two public steps: BytesRef::try_from(slice), then DynSizedStructure::ref_from_bytes(bytes) *)
+  let r2 := _ <- bytesref_check h (m_base m) (len bs) ;; ref_from_bytes p h m 0 (len bs) in
+  let show := sRes (fun d => "off=" ++ sN (d_off d) ++ " plen=" ++ sN (d_plen d) ++ " sov=" ++ sN (dref_size_of_val h d)
                       ++ " hdr=" ++ sBytes (slice bs (d_off d) (hsize h))
-                      ++ " payload=" ++ sBytes (slice bs (d_off d + hsize h) (d_plen d))) r) ].
+                      ++ " payload=" ++ sBytes (slice bs (d_off d + hsize h) (d_plen d))) in
+  [ line "ref_from_slice" (show r); line "ref_from_bytes" (show r2) ].
 
 Definition run_align (p : profile) (n : N) : list string :=
   [ line "increase_to_alignment" (sRes sN (inc_align p n)) ].
@@ -75,7 +77,19 @@ Definition run_conveq (x y : N) : list string :=
        ++ " ty_u32=" ++ sBool (eq_type_u32 (tagtype_of_u32 x) y)
        ++ " u32_ty=" ++ sBool (eq_u32_type x (tagtype_of_u32 y))
        ++ " aid_aty=" ++ sBool (eq_areaid_type x (areatype_of_id y))
-       ++ " aty_aid=" ++ sBool (eq_areatype_id (areatype_of_id x) y)) ].
+       ++ " aty_aid=" ++ sBool (eq_areatype_id (areatype_of_id x) y));
+    (* the `!=` operator of the same ten impls (PartialEq::ne, provided or overridden) *)
+    line "ne"
+      ("ty_ty=" ++ sBool (negb (tagtype_eqb (tagtype_of_u32 x) (tagtype_of_u32 y)))
+       ++ " id_id=" ++ sBool (negb (N.eqb (u32_of_id (id_of_u32 x)) (u32_of_id (id_of_u32 y))))
+       ++ " ty_id=" ++ sBool (negb (eq_type_id (tagtype_of_u32 x) (id_of_u32 y)))
+       ++ " id_ty=" ++ sBool (negb (eq_id_type (id_of_u32 x) (tagtype_of_u32 y)))
+       ++ " id_u32=" ++ sBool (negb (eq_id_u32 (id_of_u32 x) y))
+       ++ " u32_id=" ++ sBool (negb (eq_u32_id x (id_of_u32 y)))
+       ++ " ty_u32=" ++ sBool (negb (eq_type_u32 (tagtype_of_u32 x) y))
+       ++ " u32_ty=" ++ sBool (negb (eq_u32_type x (tagtype_of_u32 y)))
+       ++ " aid_aty=" ++ sBool (negb (eq_areaid_type x (areatype_of_id y)))
+       ++ " aty_aid=" ++ sBool (negb (eq_areatype_id (areatype_of_id x) y))) ].
 
 (* conveqc <x> <y>: the same impls on a symbolic value built directly as TagType::Custom(x), canonical or not
    (Custom(5) is a legal value although from(5) never yields it): equality is equality of the numbers *)
